@@ -219,6 +219,10 @@ func NewRootConfig(
 	}); err != nil {
 		return nil, k, fmt.Errorf("unmarshalling config: %w", err)
 	}
+	// The `config` parameter is empty when the config file was found by
+	// searching. Record the file actually in use so that `{{.ConfigDir}}`
+	// always refers to its directory.
+	rootConfig.ConfigFile = addr(configFile.String())
 	if err := rootConfig.Initialize(ctx); err != nil {
 		return nil, k, fmt.Errorf("initializing root config: %w", err)
 	}
